@@ -204,13 +204,14 @@ def run(eng, run):
     for f, tracked, exits, late in param_paths:
         check_close_path(eng, run, registry, f, tracked=tracked, exits=exits, late=late)
     f = db.fn("lowlevel.api_async.transports.composite:_try_graceful_close")
-    check_close_path(eng, run, registry, f, tracked=[f.params()[0].arg], is_cm=True)
+    run.attempt(check_close_path, eng, run, registry, f, tracked=[f.params()[0].arg], is_cm=True)
     for name in ("lowlevel.api_async.transports.utils:aclose_forcefully", "lowlevel.api_sync.transports.socket:_close_stream_socket"):
         f = db.fn(name)
         check_close_path(eng, run, registry, f, tracked=[f.params()[0].arg])
-    check_close_vs_reader(eng, run)
-    check_connector_cancel(eng, run)
-    check_twice(eng, run, registry)
+    run.attempt(check_close_vs_reader, eng, run)
+    run.attempt(check_connector_cancel, eng, run)
+    run.attempt(check_twice, eng, run, registry)
+    run.end_of_rules()
 
 
 def _entered_guards(fn) -> set[str]:
